@@ -11,6 +11,7 @@ import (
 	"strconv"
 	"strings"
 	"sync"
+	"sync/atomic"
 
 	"github.com/mithrandie/csvq/lib/file"
 	"github.com/mithrandie/csvq/lib/json"
@@ -1209,7 +1210,7 @@ func readRecordSet(ctx context.Context, reader RecordReader, fileSize int64) (Re
 	recordSet := make(RecordSet, 0, fileLoadingPreparedRecordSetCap)
 	rowch := make(chan []text.RawText, fileLoadingBuffer)
 	panicCh := make(chan bool, 1)
-	pos := 0
+	var pos int64 = 0
 
 	wg := sync.WaitGroup{}
 
@@ -1240,8 +1241,8 @@ func readRecordSet(ctx context.Context, reader RecordReader, fileSize int64) (Re
 				}
 			}
 
-			if 0 < fileSize && 0 < pos && len(recordSet) == fileLoadingPreparedRecordSetCap && int64(pos) < fileSize {
-				l := int((float64(fileSize) / float64(pos)) * fileLoadingPreparedRecordSetCap * 1.2)
+			if p := atomic.LoadInt64(&pos); 0 < fileSize && 0 < p && len(recordSet) == fileLoadingPreparedRecordSetCap && p < fileSize {
+				l := int((float64(fileSize) / float64(p)) * fileLoadingPreparedRecordSetCap * 1.2)
 				newSet := make(RecordSet, fileLoadingPreparedRecordSetCap, l)
 				copy(newSet, recordSet)
 				recordSet = newSet
@@ -1284,7 +1285,7 @@ func readRecordSet(ctx context.Context, reader RecordReader, fileSize int64) (Re
 
 			if 0 < fileSize && i < fileLoadingPreparedRecordSetCap {
 				for j := range row {
-					pos += len(row[j])
+					atomic.AddInt64(&pos, int64(len(row[j])))
 				}
 			}
 
@@ -1349,7 +1350,7 @@ func loadViewFromJsonLinesFile(ctx context.Context, flags *option.Flags, fp *fil
 
 	rowch := make(chan txjson.Object, fileLoadingBuffer)
 	panicCh := make(chan bool, 1)
-	pos := 0
+	var pos int64 = 0
 
 	reader := jsonl.NewReader(fp)
 	reader.SetUseInteger(false)
@@ -1381,8 +1382,8 @@ func loadViewFromJsonLinesFile(ctx context.Context, flags *option.Flags, fp *fil
 				}
 			}
 
-			if 0 < fileSize && 0 < pos && len(objectList) == fileLoadingPreparedRecordSetCap && int64(pos) < fileSize {
-				l := int((float64(fileSize) / float64(pos)) * fileLoadingPreparedRecordSetCap * 1.2)
+			if p := atomic.LoadInt64(&pos); 0 < fileSize && 0 < p && len(objectList) == fileLoadingPreparedRecordSetCap && p < fileSize {
+				l := int((float64(fileSize) / float64(p)) * fileLoadingPreparedRecordSetCap * 1.2)
 				newSet := make([]txjson.Object, fileLoadingPreparedRecordSetCap, l)
 				copy(newSet, objectList)
 				objectList = newSet
@@ -1451,7 +1452,7 @@ func loadViewFromJsonLinesFile(ctx context.Context, flags *option.Flags, fp *fil
 			}
 
 			if 0 < fileSize && i < fileLoadingPreparedRecordSetCap {
-				pos = reader.Pos()
+				atomic.StoreInt64(&pos, int64(reader.Pos()))
 			}
 
 			select {
